@@ -12,8 +12,8 @@
 From Coq Require Import List NArith Bool Lia ZifyN ZifyNat ZifyBool.
 From VLib Require Import Chunks ChunksProofs.
 From VMem Require Import StorageAccessor StorageAccessorProofs.
-From VDrv Require Import MemCopy MemCopyProofs FlushHist FlushHistProofs.
-From VCp Require Import Dma DmaProofs CpRelay.
+From VDrv Require Import MemCopy MemCopyProofs FlushHist FlushHistProofs CopyCmd CopyCmdProofs.
+From VCp Require Import Dma DmaProofs DmaDataProofs CpRelay.
 Import ListNotations.
 Open Scope N_scope.
 
@@ -207,6 +207,37 @@ Example demo_hist :
   g_need s = [2%nat] /\ snd (hstep s (HCopy 4096 16)) = true /\ snd (hstep s (HCopy 20000 16)) = false.
 Proof. vm_compute. repeat split; reflexivity. Qed.
 
+(** * The driver's copy command: one completion, after the last response of any kind
+
+    After processMemCopyH2D/D2HCommand a command waits for its requests (a flush
+    per GPU when needed, one copy request per page piece).  For every set of
+    requests with distinct IDs and every sequence of responses and ticks that
+    does not run into the "cannot find command" panic (i.e. no response for an
+    unknown or already answered request): the command is completed at most
+    once, and it is completed exactly when every request has been answered —
+    whichever response, flush or copy, comes last — and, for a command without
+    any request (zero bytes, nothing to flush), when the driver has ticked. *)
+Theorem driver_copy_completes_once : forall reqs evs, NoDup (map fst reqs) ->
+  let s := crun (cstart reqs) evs in
+  cc_crashed s = false ->
+  (cc_done s <= 1)%nat /\
+  (cc_done s = 1%nat <->
+     (forall r, In r reqs -> In (fst r) (rsp_ids evs)) /\ (reqs = [] -> has_tick evs = true)) /\
+  NoDup (rsp_ids evs) /\ incl (rsp_ids evs) (map fst reqs).
+Proof. exact completes_iff. Qed.
+Print Assumptions driver_copy_completes_once.
+
+(** Before the two repairs the statement was false: a flush response arriving
+    last, and a command without requests, never completed. *)
+Theorem driver_copy_completes_once_refuted_before_fix :
+  (let s := crun_gen false (cstart [(0, QFlush); (1, QCopy)]) [CTick; CRsp 1; CTick; CRsp 0; CTick] in
+   cc_crashed s = false /\ cc_reqs s = [] /\ cc_done s = 0%nat) /\
+  (let s := crun_gen false (cstart []) [CTick; CTick] in cc_crashed s = false /\ cc_done s = 0%nat) /\
+  (let s := crun (cstart [(0, QFlush); (1, QCopy)]) [CTick; CRsp 1; CTick; CRsp 0; CTick] in cc_done s = 1%nat) /\
+  (let s := crun (cstart []) [CTick; CTick] in cc_done s = 1%nat).
+Proof. vm_compute. repeat split; reflexivity. Qed.
+Print Assumptions driver_copy_completes_once_refuted_before_fix.
+
 (** * The DMA engine: one completion per command, after all its sub-requests *)
 
 (** For every configuration and every finite sequence of environment events
@@ -217,7 +248,8 @@ Proof. vm_compute. repeat split; reflexivity. Qed.
       completions produced, in order;
     - every completion belongs to a distinct accepted command (its position in
       the acceptance order), names that command, and is produced only when all
-      of that command's sub-requests — a non-empty list — have been answered;
+      of that command's sub-requests have been answered (a command of zero
+      bytes has none and is answered when it is accepted);
     - no sub-request is answered twice;
     - never more than maxRequestCount commands are in progress. *)
 Theorem copy_completes_once : forall l mx evs,
@@ -225,7 +257,7 @@ Theorem copy_completes_once : forall l mx evs,
   g_retr s ++ cp_out s ++ to_cp s = map snd (g_done s) /\
   NoDup (map fst (g_done s)) /\
   Forall (fun d => exists c0 ids, nth_error (g_acc s) (fst d) = Some (c0, ids) /\
-                   same_cmd c0 (snd d) /\ ids <> [] /\ incl ids (g_ans s)) (g_done s) /\
+                   same_cmd c0 (snd d) /\ incl ids (g_ans s)) (g_done s) /\
   NoDup (g_ans s) /\
   (length (processing s) <= mx)%nat.
 Proof.
@@ -234,6 +266,23 @@ Proof.
   rewrite Hc in *. cbn [maxreq init] in *. auto.
 Qed.
 Print Assumptions copy_completes_once.
+
+(** Data placement of D2H commands.  Assumption on the environment, stated as a
+    predicate over the event sequence ([respects m]): every response delivered
+    to the engine answers an existing sub-request with the matching kind, and a
+    read is answered with the bytes the image [m] holds at the requested range
+    (replies in any order, any interleaving with ticks, deliveries and
+    retrievals, any number of concurrent commands).  Then every completion of a
+    D2H command that the engine queues, offers or has handed over carries in its
+    destination buffer exactly m[addr .. addr+len): each reply was written at
+    the offset of its sub-request and nowhere else. *)
+Theorem dma_d2h_data_exact : forall m l mx evs,
+  respects m (init l mx) evs ->
+  let s := run (init l mx) evs in
+  forall c, In c (g_retr s ++ cp_out s ++ to_cp s) -> c_kind c = CD2H ->
+  forall i, i < len (c_data c) -> nth (N.to_nat i) (c_data c) 0 = m (c_addr c + i).
+Proof. intros m l mx evs Hr s c Hin. exact (d2h_data_exact m l mx evs Hr c Hin). Qed.
+Print Assumptions dma_d2h_data_exact.
 
 (** The sub-requests of an accepted command are the line pieces of its range,
     numbered consecutively, each write carrying its slice of the source. *)
@@ -258,7 +307,9 @@ Proof.
     - inversion Hk; subst. f_equal. f_equal. lia.
     - rewrite (IH (n + 1) k p Hk). f_equal. f_equal. lia. }
   destruct (split_lines (lg s) (c_addr c) (len (c_data c))) as [l| |] eqn:Es;
-    destruct (c_kind c) eqn:Ek; inversion H; subst; clear H;
+    destruct (c_kind c) eqn:Ek; try (inversion H; fail);
+    match type of H with context [if ?b then _ else _] => destruct b end;
+    inversion H; subst; clear H;
     exists c, rest, l; cbn; repeat split; auto;
     intros k p Hk; rewrite (Hnth _ _ _ _ Hk); unfold mk_sub; rewrite Ek; reflexivity.
 Qed.
@@ -336,6 +387,31 @@ Example demo_dma_completes :
 Proof. vm_compute. repeat split; reflexivity. Qed.
 
 (** The premise of the relay theorem is satisfiable, and without it a command is lost. *)
+(** The premise of [dma_d2h_data_exact] is satisfiable: an 8-byte D2H crossing a
+    line boundary, the two replies delivered in reverse order. *)
+Definition demo_img : bytes := fun a => (a * 3) mod 256.
+Definition demo_d2h : list ev :=
+  [EDeliverCP (mkCopy 1 CD2H 10 60 (repeat 0 8)); ETick; ETick; ETick; ERetrMem; ERetrMem;
+   EDeliverMem (mkRsp RData 1000001 (to_list demo_img 64 4));
+   EDeliverMem (mkRsp RData 1000000 (to_list demo_img 60 4)); ETick; ETick; ETick; ERetrCP].
+Example demo_d2h_respects : respects demo_img (init 6 4) demo_d2h.
+Proof.
+  unfold demo_d2h. cbn [respects].
+  repeat (split; [exact I|]).
+  split; [split; [reflexivity|]|split; [split; [reflexivity|]|repeat (split; [exact I|]); exact I]].
+  - vm_compute. intros q [<-|[<-|[]]] H; try discriminate H. left. repeat split; reflexivity.
+  - vm_compute. intros q [<-|[<-|[]]] H; try discriminate H. left. repeat split; reflexivity.
+Qed.
+Example demo_d2h_result :
+  map c_data (g_retr (run (init 6 4) demo_d2h)) = [to_list demo_img 60 8].
+Proof. reflexivity. Qed.
+
+(** A command of zero bytes is answered when it is accepted and occupies no slot. *)
+Example demo_dma_zero_length :
+  let s := run (init 6 4) [EDeliverCP (mkCopy 1 CD2H 10 100 []); ETick; ETick; ERetrCP] in
+  map c_id (g_retr s) = [1] /\ processing s = [] /\ g_sent s = [] /\ crashed s = false.
+Proof. vm_compute. repeat split; reflexivity. Qed.
+
 Example demo_relay :
   let s := mkCp [7] [] [] [] [] 100 1%nat false false [] in
   outgoing_not_full s /\ dma_out (relay_req s) = [(100, 7)] /\
